@@ -22,6 +22,7 @@ from fractions import Fraction
 import numpy as np
 from hypothesis import strategies as st
 
+from vp.oracle.c07_guard import Guarded
 from vp.runner import Suite
 
 PROP_ID = "C09"
@@ -97,7 +98,8 @@ def relclose(got, ref, rtol):
 # --------------------------------------------------------------------------
 def check_exact(case, ctx):
     from typhon import constants
-    from typhon.physics import atmosphere as A
+    from typhon.physics import atmosphere
+    A = Guarded(atmosphere, ctx)
     md, mw = case["md"], case["mw"]
     vals = sorted(set(case["vals"]))
     ctx.label("exact", "exact-decimal-masses" if (md, mw) == (MD_DEC, MW_DEC)
@@ -203,7 +205,8 @@ def exact_cases(draw):
 # --------------------------------------------------------------------------
 def check_float(case, ctx):
     from typhon import constants
-    from typhon.physics import atmosphere as A
+    from typhon.physics import atmosphere
+    A = Guarded(atmosphere, ctx)
     kind = case["kind"]
     ctx.label("float-" + kind)
     if kind == "0d":
@@ -435,7 +438,8 @@ def saturation_checks(ctx, A, T, what):
 
 def check_saturation(case, ctx):
     from typhon import constants
-    from typhon.physics import atmosphere as A
+    from typhon.physics import atmosphere
+    A = Guarded(atmosphere, ctx)
     if constants.triple_point_water != TT:
         raise RuntimeError("harness constant T_t differs from typhon's")
     kind = case["kind"]
@@ -506,7 +510,8 @@ def saturation_cases(draw):
 
 
 def check_reject(case, ctx):
-    from typhon.physics import atmosphere as A
+    from typhon.physics import atmosphere
+    A = Guarded(atmosphere, ctx)
     ctx.label("reject", "reject-" + case["kind"])
     ctx.nontrivial = True
     vals = case["T"]
@@ -604,7 +609,8 @@ def lapse_tmax(name):
 
 def check_rh_lapse(case, ctx):
     from typhon import constants
-    from typhon.physics import atmosphere as A
+    from typhon.physics import atmosphere
+    A = Guarded(atmosphere, ctx)
     name = case["e_eq"]
     e_eq = _custom(name)
     kind = case["kind"]
